@@ -92,6 +92,26 @@ Ltac split_ifs := repeat match goal with
   | |- context [if ?c then _ else _] => let E := fresh "E" in destruct c eqn:E
   end.
 
+(* decide every condition in the goal that linear arithmetic decides from the hypotheses - whatever its shape, the order
+   of its conjuncts or the direction of its comparisons; used after a case split on the MEANING of a condition
+   (assert (C : P \/ ~ P) by lia; destruct C; decide_conds), so that the proof does not mention the generated term *)
+Ltac decide_conds := fold_bool; repeat match goal with
+  | |- context [if ?c then _ else _] => first [ replace c with true by lia | replace c with false by lia ]
+  end.
+(* case split on the condition of some `if` of the goal, found by shape *)
+Ltac case_if := match goal with
+  | |- context [if ?c then _ else _] => let E := fresh "E" in destruct c eqn:E
+  end.
+
+(* a counted loop depends on its body only through the body's values (used to replace the generated body term by a
+   description of what it does, proved pointwise - not by matching its text) *)
+Lemma go_count_from_ext {S R} (f g : Z -> S -> ctl S R) : (forall i s, f i s = g i s) ->
+  forall k i s, go_count_from k i f s = go_count_from k i g s.
+Proof.
+  intros E. induction k as [|k IH]; intros i s; [reflexivity|]. cbn [go_count_from]. rewrite E.
+  destruct (g i s); cbn [bindc]; [apply IH|reflexivity|reflexivity].
+Qed.
+
 (* ---------- sort.Search ---------- *)
 (* for a predicate that is defined on [0, n) and monotone there (once true, true from there on), the binary search
    returns the least index where it holds, n if there is none *)
